@@ -104,6 +104,35 @@ class TailEngine(seqs.SeqEngine):
         return super().call_method(obj, name, args, kwargs, st)
 
 
+is_dst = z3.Function("observance_is_daylight", E.S, E.B)          # dst[name] of the collection loop (_extract_offsets: E.kind)
+
+
+class InfoEngine(TailEngine):
+    """one generic iteration of the loop that builds transition_info.  The two inner search loops (`for index in range(..): if
+    <test>: <assign>; break`) are summarised soundly: afterwards either nothing was assigned, or the assignments of ONE iteration
+    at some index of the range were made (the real loop takes the first such index; 'some' includes it)."""
+
+    def st_For(self, stmt, st):
+        has_break = any(isinstance(n, ast.Break) for x in stmt.body for n in ast.walk(x))
+        is_range = isinstance(stmt.iter, ast.Call) and isinstance(stmt.iter.func, ast.Name) and stmt.iter.func.id == "range"
+        if not (has_break and is_range and not stmt.orelse and isinstance(stmt.target, ast.Name)):
+            return super().st_For(stmt, st)
+        out = [(st.fork(), None)]                    # no index matched (or the range is empty)
+        idx = E.fresh("index", E.I)
+        s1 = st.fork()
+        s1.assume(0 <= idx, idx < N)                 # every index the two ranges produce lies in [0, len(transitions))
+        s1.env = dict(s1.env)
+        s1.env[stmt.target.id] = E.VInt(idx)
+        for s2, sig in self.exec_block(stmt.body, s1):
+            if sig is not None and sig[0] == "break":
+                out.append((s2, None))
+            elif sig is None:
+                pass                                  # an iteration without a match changes nothing (checked: no assignment outside the if)
+            else:
+                out.append((s2, sig))
+        return out
+
+
 def tail_statements(node):
     """the statements of get_transitions after the loop that collects the transitions"""
     body = source.strip_docstring(node.body)
@@ -194,6 +223,104 @@ def order_obligations(rep, tier):
     o2.detail = o2.detail or f"{n_paths} path; any number of transitions; sort key: {getattr(o2, 'sort_key', None)}"
     if o2.status == REFUTED:
         o2.shape_only = True
+    return [o1, o2] + info_obligations(rep, tier, node, tail, lat)
+
+
+def info_obligations(rep, tier, node, tail, lat):
+    """G.info: one generic iteration of `for num, (transtime, osfrom, osto, name) in enumerate(transitions)`"""
+    fn = "cal:Timezone.get_transitions"
+    T = TIMEOUT_MS[tier]
+    lines = source.lines_of(node)
+    oid1 = f"{PID}.G.every_transition_reports_its_TZOFFSETTO_and_its_own_name"
+    oid2 = f"{PID}.G.a_STANDARD_transition_reports_zero_dst"
+    loops = [x for x in tail if isinstance(x, ast.For) and "enumerate(transitions)" in ast.unparse(x.iter)]
+    if len(loops) != 1:
+        return [ob_from(oid1, fn, lines, UNDECIDED, "the loop over enumerate(transitions) was not found"), ob_from(oid2, fn, lines, UNDECIDED, "loop not found")]
+    loop = loops[0]
+    eng = InfoEngine(lat, {})
+    dtc.register(eng.contracts)
+    st = E.State()
+    k = E.fresh("num", E.I)
+    st.assume(N >= 1, 0 <= k, k < N)
+    j = z3.Int("j!info")
+    addr = st.alloc(E.ListObj([seqs.SegEntry(("range", z3.IntVal(0), N, j, eng.elem(j)))]))
+    info = st.alloc(E.ListObj([]))
+    lat.add("DSTMAP", ["object"]) if "DSTMAP" not in lat.ids else None
+
+    def getitem(engine, s, c, key):
+        c = engine.unbox_known(c, s)
+        if isinstance(c, E.VClass) and c.name == "DSTMAP":
+            return [(s, E.VBool(is_dst(engine.unbox_known(key, s).z)))]
+        if isinstance(c, E.VList) and c.addr == addr:
+            kk = engine.unbox_known(key, s)
+            return [(s, engine.elem(kk.z))]
+        if isinstance(c, E.VTuple):
+            kz = z3.simplify(key.z)
+            if z3.is_int_value(kz):
+                return [(s, c.items[kz.as_long()])]
+        raise E.Undecided("subscript")
+    eng.contracts["op:getitem"] = getitem
+    st.env = {"self": E.VRef(z3.Const("self", E.Ref)), "transitions": E.VList(addr), "transition_info": E.VList(info), "dst": E.VClass("DSTMAP")}
+    saved_td = E.BUILTINS.get("timedelta")
+    E.BUILTINS["timedelta"] = lambda e, s, a, kw: [(s, E.VTd(z3.IntVal(0)))] if not a and (not kw or all(z3.is_int_value(z3.simplify(v.z)) and z3.simplify(v.z).as_long() == 0 for v in kw.values())) else (_ for _ in ()).throw(E.Undecided("timedelta(...)"))
+    st.env["timedelta"] = E.VBuiltin("timedelta")
+    saved_len = E.BUILTINS.get("len")
+    base_len = saved_len
+
+    def b_len(e, s, a, kw):
+        v = e.unbox_known(a[0], s)
+        if isinstance(v, E.VList) and v.addr == addr:
+            return [(s, E.VInt(N))]
+        return base_len(e, s, a, kw)
+    E.BUILTINS["len"] = b_len
+    o1 = Obligation(oid1, fn, "z3", PROVED, lines=lines)
+    o2 = Obligation(oid2, fn, "z3", PROVED, lines=lines)
+    try:
+        results = []
+        for s1, sig in eng.assign(loop.target, E.VTuple([E.VInt(k), eng.elem(k)]), st):
+            if sig is not None:
+                raise E.Undecided("the loop target is not `num, (transtime, osfrom, osto, name)`")
+            results += eng.exec_block(loop.body, s1)
+    except E.Undecided as u:
+        o1.status = o2.status = UNDECIDED
+        o1.detail = o2.detail = f"outside subset: {u}"
+        return [o1, o2]
+    finally:
+        if saved_td is None:
+            E.BUILTINS.pop("timedelta", None)
+        else:
+            E.BUILTINS["timedelta"] = saved_td
+        E.BUILTINS["len"] = saved_len
+    n = 0
+    for s, sig in results:
+        if sig is not None:
+            if sig[0] == "raise" and sig[1].cls == "AssertionError":
+                continue              # `assert dst_offset is not False`: a zone without any STANDARD observance (reported as ValueError by the caller, C04)
+            o1.status, o1.detail = UNDECIDED, f"the iteration exits with {sig}"
+            continue
+        items = s.heap[info].items
+        n += 1
+        if len(items) != 1 or not isinstance(items[0], E.VTuple) or len(items[0].items) != 3:
+            status, secs, inf = check_vc(eng.axioms, [*s.pc, *s.qpc], z3.BoolVal(False), T)
+            compare.fold_status(o1, status, secs, inf, "the iteration does not append exactly one (utcoffset, dst, name) tuple")
+            continue
+        off, dstv, nm = items[0].items
+        off, nm = eng.unbox_known(off, s), eng.unbox_known(nm, s)
+        g1 = z3.And(off.us == O2(k) if isinstance(off, E.VTd) else z3.BoolVal(False), nm.z == N2(k) if isinstance(nm, E.VStr) else z3.BoolVal(False))
+        status, secs, inf = check_vc(eng.axioms, [*s.pc, *s.qpc], g1, T)
+        compare.fold_status(o1, status, secs, inf, "appended tuple")
+        dstv = eng.unbox_known(dstv, s)
+        zero = dstv.us == 0 if isinstance(dstv, E.VTd) else z3.BoolVal(False)
+        status, secs, inf = check_vc(eng.axioms, [*s.pc, *s.qpc], z3.Implies(z3.Not(is_dst(N2(k))), zero), T)
+        compare.fold_status(o2, status, secs, inf, "dst of a STANDARD transition")
+    if n == 0 and o1.status == PROVED:
+        o1.status = o2.status = UNDECIDED
+        o1.detail = o2.detail = "no normally ending path"
+    o1.detail = o1.detail or f"{n} paths of one generic iteration (index num, any number of transitions); inner searches summarised"
+    o2.detail = o2.detail or o1.detail
+    for o in (o1, o2):
+        if o.status == REFUTED:
+            o.shape_only = True
     return [o1, o2]
 
 
